@@ -235,3 +235,23 @@ M('C04', 'give-unregistered-token-default', ITS, '                let token_conf
   '                let token_config_value = Self::token_id_config_with_extended_ttl(env, token_id.clone())\n                    .unwrap_or(TokenIdConfigValue { token_address: destination_address.clone(), token_manager_type: TokenManagerType::LockUnlock });\n\n                token_handler::give_token(', 'C04.R4')
 M('C04', 'accept-send-to-hub-wrapper', ITS, '        else {\n            return Err(ContractError::InvalidMessageType);\n        };\n\n        ensure!(\n            Self::is_trusted_chain',
   '        else {\n            return Err(ContractError::InvalidMessageType);\n        };\n        let _unused = 0;\n\n        ensure!(\n            Self::is_trusted_chain', equiv=True)
+
+# ---------------- C05 ----------------
+M('C05', 'transfer-zero-amount-allowed', ITS, '        ensure!(amount > 0, ContractError::InvalidAmount);\n\n        caller.require_auth();', '        caller.require_auth();', 'C05.R1')
+M('C05', 'take-half-announce-full', TH, '        TokenManagerType::NativeInterchainToken => token.burn(sender, &amount),', '        TokenManagerType::NativeInterchainToken => token.burn(sender, &(amount / 2)),', 'C05.R2')
+M('C05', 'lock-from-service-to-sender', TH, '            token.transfer(sender, &env.current_contract_address(), &amount)', '            token.transfer(&env.current_contract_address(), sender, &amount)', 'C05')
+M('C05', 'give-arms-swapped', TH, '        TokenManagerType::NativeInterchainToken => {\n            StellarAssetClient::new(env, &token_address).mint(recipient, &amount)\n        }\n        TokenManagerType::LockUnlock => TokenClient::new(env, &token_address).transfer(\n            &env.current_contract_address(),\n            recipient,\n            &amount,\n        ),',
+  '        TokenManagerType::LockUnlock => {\n            StellarAssetClient::new(env, &token_address).mint(recipient, &amount)\n        }\n        TokenManagerType::NativeInterchainToken => TokenClient::new(env, &token_address).transfer(\n            &env.current_contract_address(),\n            recipient,\n            &amount,\n        ),', 'C05.R2')
+M('C05', 'announce-wrong-sender', ITS, '            source_address: caller.clone().to_xdr(env),\n            destination_address,', '            source_address: destination_address.clone(),\n            destination_address,', 'C05.R3')
+M('C05', 'announce-amount-plus-one', ITS, '            destination_address,\n            amount,\n            data,\n        });', '            destination_address,\n            amount: amount + 1,\n            data,\n        });', 'C05.R3')
+M('C05', 'untrusted-destination-allowed', ITS, '        ensure!(\n            Self::is_trusted_chain(env, destination_chain.clone()),\n            ContractError::UntrustedChain\n        );\n\n        let gateway = AxelarGatewayMessagingClient', '        let gateway = AxelarGatewayMessagingClient', 'C05.R4')
+M('C05', 'gas-paid-for-other-payload', ITS, '            &hub_address,\n            &payload,\n            &caller,\n            &gas_token,', '            &hub_address,\n            &Bytes::new(env),\n            &caller,\n            &gas_token,', 'C05.R4')
+M('C05', 'gas-paid-by-service', ITS, '            &payload,\n            &caller,\n            &gas_token,\n            &Bytes::new(env),', '            &payload,\n            &env.current_contract_address(),\n            &gas_token,\n            &Bytes::new(env),', 'C05.R4')
+M('C05', 'call-to-destination-not-hub', ITS, '        gateway.call_contract(\n            &env.current_contract_address(),\n            &hub_chain,', '        gateway.call_contract(\n            &env.current_contract_address(),\n            &destination_chain,', 'C05.R4')
+M('C05', 'give-recipient-is-sender', ITS, '                token_handler::give_token(\n                    env,\n                    &destination_address,', '                token_handler::give_token(\n                    env,\n                    &Address::from_xdr(env, &source_address).map_err(|_| ContractError::InvalidDestinationAddress)?,', 'C05')
+M('C05', 'give-twice', ITS, '                token_handler::give_token(\n                    env,\n                    &destination_address,\n                    token_config_value.clone(),\n                    amount,\n                )?;\n',
+  '                token_handler::give_token(\n                    env,\n                    &destination_address,\n                    token_config_value.clone(),\n                    amount,\n                )?;\n                token_handler::give_token(\n                    env,\n                    &destination_address,\n                    token_config_value.clone(),\n                    amount,\n                )?;\n', 'C05.R5')
+M('C05', 'sent-event-wrong-amount', ITS, '            destination_address: destination_address.clone(),\n            amount,\n            data: data.clone(),\n        }\n        .emit(env);\n\n        let message = Message::InterchainTransfer',
+  '            destination_address: destination_address.clone(),\n            amount: 0,\n            data: data.clone(),\n        }\n        .emit(env);\n\n        let message = Message::InterchainTransfer', 'C05.R3')
+M('C05', 'register-then-sweep-custody', ITS, '        Self::set_token_id_config(\n            env,\n            token_id.clone(),\n            TokenIdConfigValue {\n                token_address,\n                token_manager_type: TokenManagerType::LockUnlock,\n            },\n        );',
+  '        token::Client::new(env, &token_address).transfer(&env.current_contract_address(), &Self::owner(env), &0);\n        Self::set_token_id_config(\n            env,\n            token_id.clone(),\n            TokenIdConfigValue {\n                token_address,\n                token_manager_type: TokenManagerType::LockUnlock,\n            },\n        );', 'C05.R6')
